@@ -1,4 +1,4 @@
-(* requires: ZoneSel EnumBitmap Temporal XorKey Time *)
+(* requires: ZoneSel EnumBitmap Temporal XorKey Time CtxIndex *)
 (* C08 part B probes on the extracted models; same case lines and result lines as
    harness/src/probes/zoneidx.rs.  Parsing and printing only. *)
 open Conv
@@ -128,8 +128,32 @@ let run_xor zones op lit =
   let fres = XorKey.apply_presence_only XorKey.exact_contains ff all_zones (op_of op) lit in
   Printf.sprintf "lk=%s disp=ok ck=%s have=%s own=1 zres=%s fres=%s" (key_str (XorKey.probe_key lit)) ck have (show zres) (show fres)
 
+(* ---------------- context index (part C): same line and answer as run_ctx of zoneidx.rs.  The mode token
+   (b<k> = the planner cut the rows into zones of k, x = explicit plans) only matters to the Rust side: the zones
+   of the line are the zone plans either way (the Rust probe checks that with shape=ok). *)
+let run_ctx _mode zones probes =
+  let zps = SL.map (fun z ->
+      match split_on ':' z with
+      | [zid; evt; cs] -> { CtxIndex.zp_id = n_of_string zid; zp_evt = bytes_of_hex evt;
+                            zp_ctxs = SL.map bytes_of_hex (split_on ',' cs) }
+      | _ -> failwith "ctx zone") (split_on ';' zones) in
+  let ix = CtxIndex.build zps in
+  let by_key l = SL.sort (fun (a, _) (b, _) -> compare a b) l in
+  let dump = by_key (SL.map (fun (e, cm) ->
+      (hex_of_bytes e, by_key (SL.map (fun (c, zs) -> (hex_of_bytes c, zs)) cm))) (CtxIndex.dump ix)) in
+  let ds = join ";" (SL.map (fun (e, cm) ->
+      e ^ ">" ^ join "," (SL.map (fun (c, zs) -> c ^ "=" ^ join "." (SL.map string_of_n zs)) cm)) dump) in
+  let res = SL.map (fun p ->
+      match split_on '/' p with
+      | [e; c] ->
+          let ctx = if c = "~" then None else Some (bytes_of_hex c) in
+          show (Some (CtxIndex.find ix (bytes_of_hex e) ctx))
+      | _ -> failwith "ctx probe") (split_on ',' probes) in
+  Printf.sprintf "shape=ok idx=%s res=%s" (if ds = "" then "_" else ds) (join "|" res)
+
 let run (t : string list) : string =
   match t with
+  | ["zidx_ctx"; mode; z; probes] -> run_ctx mode z probes
   | ["zidx_hash"; h] -> string_of_n (XorKey.stable_hash64 (bytes_of_hex h))
   | ["zidx_enum"; v; z; op; lit] -> run_enum v z op lit
   | ["zidx_temp"; col; z; op; lit] -> run_temp col z op lit
